@@ -41,7 +41,7 @@ def prove_macro_call(rep, nmfu, program):
     for nargs in range(0, 4):
         for nparams in range(0, 4):
             log = []
-            outer = object()
+            outer = SObj(nmfu.MacroInstance, {"parent": None, "macro": None})   # an enclosing macro instance (chain of length 1)
             stack0 = [HDict({("x", "y"): 0})]
 
             def body(eng):
